@@ -1,11 +1,15 @@
 package main
 
 import (
+	"encoding/base64"
 	"encoding/binary"
+	"encoding/hex"
 	"fmt"
 	"net"
 	"strings"
 	"time"
+	rn "verif/harness/ref/name"
+	rt "verif/harness/ref/tsig"
 
 	"github.com/miekg/dns"
 	rx "verif/harness/ref/xfr"
@@ -325,22 +329,23 @@ const (
 )
 
 type c15wenv struct {
-	src   int // index of the logical envelope (= position in the sender's MAC chain)
-	mode  int
-	alter [][2]int // offset, xor mask
-	macLen int // wMacShort: octets of the MAC that are kept
+	src    int // index of the logical envelope (= position in the sender's MAC chain)
+	mode   int
+	alter  [][2]int // offset, xor mask
+	macLen int      // wMacShort: octets of the MAC that are kept
 }
 
 type c15script struct {
-	sh       *c15shape
-	tsig     bool
-	compress bool
-	seg      int
-	logical  []c15lenv
-	wire     []c15wenv
-	cut      int // -1: the whole stream is delivered
-	ops      []c15op
-	mask     int
+	viaProvider bool // the client's keys are configured through Transfer.TsigProvider
+	sh          *c15shape
+	tsig        bool
+	compress    bool
+	seg         int
+	logical     []c15lenv
+	wire        []c15wenv
+	cut         int // -1: the whole stream is delivered
+	ops         []c15op
+	mask        int
 }
 
 func c15Base(sh *c15shape, mask int, tsig bool) *c15script {
@@ -532,10 +537,57 @@ func (s *c15script) message(req *dns.Msg, i int) *dns.Msg {
 	return m
 }
 
+// c15RefSign signs m with the independent RFC 8945 model (ref/tsig): the message is packed without TSIG, the TSIG
+// record (HMAC-SHA256, fudge 300) is computed and attached by the model. reqMAC and the returned MAC are hex strings
+// as the library holds them. The library's own TsigGenerate takes no part, so a digest that signer and verifier of
+// the library change together is seen by the transfers checked here.
+func c15RefSign(m *dns.Msg, key, secretB64, reqMACHex string, timersOnly bool, now int64) ([]byte, string, error) {
+	body, err := m.Pack()
+	if err != nil {
+		return nil, "", err
+	}
+	secret, err := base64.StdEncoding.DecodeString(secretB64)
+	if err != nil {
+		return nil, "", err
+	}
+	prev, err := hex.DecodeString(reqMACHex)
+	if err != nil {
+		return nil, "", err
+	}
+	rec := rt.Rec{Name: rn.Parse(key).Labels, Class: 255, TTL: 0, Alg: rn.Parse("hmac-sha256.").Labels, Time: uint64(now), Fudge: 300, OrigID: m.Id}
+	w, mac, ok := rt.Sign(body, rec, secret, prev, timersOnly)
+	if !ok {
+		return nil, "", fmt.Errorf("reference TSIG signer refused")
+	}
+	return w, hex.EncodeToString(mac), nil
+}
+
+// c15RefVerify checks a TSIG-signed message with the model.
+func c15RefVerify(raw []byte, secretB64, reqMACHex string, timersOnly bool) error {
+	secret, err := base64.StdEncoding.DecodeString(secretB64)
+	if err != nil {
+		return err
+	}
+	prev, err := hex.DecodeString(reqMACHex)
+	if err != nil {
+		return err
+	}
+	now := uint64(time.Now().Unix())
+	for try := 0; try < 2; try++ {
+		ok, why := rt.Verify(raw, func(name [][]byte) ([]byte, bool) { return secret, true }, prev, timersOnly, now)
+		if ok {
+			return nil
+		}
+		err = fmt.Errorf("reference verifier: %s", why)
+		now = uint64(time.Now().Unix())
+	}
+	return err
+}
+
 // stream produces what the scripted server sends in reply to req. With TSIG the sender behaves as RFC
 // 8945 §5.3.1 says: the first message is signed over the request MAC with the full TSIG variables, each
-// following one over the previous message's MAC with the timers only. dns.TsigGenerate supplies the digest
-// (its correctness is property C11); the chaining is this function's.
+// following one over the previous message's MAC with the timers only. The digest and the TSIG record come from the
+// independent model ref/tsig; the chaining is this function's.
 func (s *c15script) stream(req *dns.Msg, reqMAC string) ([]byte, []c15msgLayout, error) {
 	type signed struct {
 		wire   []byte
@@ -548,10 +600,9 @@ func (s *c15script) stream(req *dns.Msg, reqMAC string) ([]byte, []c15msgLayout,
 		prev := reqMAC
 		for i := range s.logical {
 			m := s.message(req, i)
-			m.SetTsig(c15Key, dns.HmacSHA256, 300, now)
-			w, mac, err := dns.TsigGenerate(m, c15Secret, prev, i > 0)
+			w, mac, err := c15RefSign(m, c15Key, c15Secret, prev, i > 0, now)
 			if err != nil {
-				return nil, nil, fmt.Errorf("scripted server: TsigGenerate: %v", err)
+				return nil, nil, fmt.Errorf("scripted server: reference TSIG signer: %v", err)
 			}
 			chain[i] = signed{wire: w, prev: prev, timers: i > 0}
 			prev = mac
@@ -597,8 +648,7 @@ func (s *c15script) stream(req *dns.Msg, reqMAC string) ([]byte, []c15msgLayout,
 			if w.mode == wRekeyKnown {
 				key, secret = c15Key2, c15Secret2
 			}
-			m.SetTsig(key, dns.HmacSHA256, 300, now)
-			msg, _, err = dns.TsigGenerate(m, secret, chain[w.src].prev, chain[w.src].timers)
+			msg, _, err = c15RefSign(m, key, secret, chain[w.src].prev, chain[w.src].timers, now)
 		}
 		if err != nil {
 			return nil, nil, fmt.Errorf("scripted server: %v", err)
